@@ -266,7 +266,40 @@ let state_str (s : hub_state) =
   Printf.sprintf "%s %s %s %s %s %s %s %s" (sn s.hs_ber) (sn s.hs_ser) (sn s.hs_bb) (sn s.hs_bst)
     (sn s.hs_lim) (sn s.hs_phb) (sn s.hs_lut) (sn s.hs_lpb)
 
-let dump_token name (t : token option) =
+(* ---------- listing order and paging (PROTOCOL.md section 5, "Paged listings") ----------
+   The listing queries (reward Holders, cw20 AllAccounts / AllAllowances / AllSpenderAllowances)
+   return the entries of a storage map in ascending byte order of the map KEY.  The model keeps
+   these maps as association lists in insertion order, so the printer sorts the model's entries the
+   way the storage does:
+   - bSei (cw20-legacy BALANCES / ALLOWANCES) and the reward HOLDERS map are keyed by the CANONICAL
+     address; the mock API's canonical form (lower-cased name, zero-padded, rotated and
+     digit-shuffled) does not order like the names.  [canon_order] lists ADDRS in ascending byte
+     order of `addr_canonicalize`; it is the last line printed by `krp-harness canon-order`
+     (harness/src/main.rs), which computes it with the very `Api` object the contracts are run with;
+   - stSei (cw20-base) keys its maps by the `Addr` string: byte order of the names.
+   No model data is changed, only the order of printing. *)
+let canon_order = [| "keeper"; "stsei"; "owner"; "reward"; "nobody"; "airdrop"; "updater"; "user0";
+                     "user1"; "hub"; "reg"; "user4"; "user5"; "user3"; "user2"; "user7"; "user6";
+                     "bsei"; "disp"; "swap"; "oracle" |]
+let canon_rank =
+  let r = Array.make (Array.length addrs) (-1) in
+  Array.iteri (fun rank nm -> r.(index_of addrs nm) <- rank) canon_order;
+  Array.iter (fun x -> if x < 0 then failwith "canon_order is not a permutation of ADDRS") r;
+  r
+let rank_canon (a : addr) =
+  let i = int_of_n a in
+  if i >= 1 && i <= Array.length addrs then canon_rank.(i - 1) else max_int
+let cmp_canon a b = compare (rank_canon a) (rank_canon b)
+let cmp_name a b = compare (name_of a) (name_of b)
+let sort_by cmp key l = List.stable_sort (fun x y -> cmp (key x) (key y)) l
+
+(* page K (0-based) holds 2 entries if K is even, 3 if odd: entry number i is on page [page_of i] *)
+let page_of i = 2 * (i / 5) + (if i mod 5 < 2 then 0 else 1)
+let rec take n = function [] -> [] | x :: r -> if n <= 0 then [] else x :: take (n - 1) r
+let default_limit = 10
+
+let dump_token name (base : bool) (t : token option) =
+  let cmp = if base then cmp_name else cmp_canon in
   match t with
   | None -> pr "tok.%s.none\n" name
   | Some t ->
@@ -274,9 +307,16 @@ let dump_token name (t : token option) =
         | None -> ("-", "-")
         | Some (a, c) -> (name_of a, match c with None -> "-" | Some x -> sn x) in
       pr "tok.%s.info %s %s %s\n" name (sn t.tk_supply) mn cap;
+      (* name, symbol, decimals are constants of the protocol (3.2), not model state *)
+      pr "tok.%s.meta %s_token %s 6\n" name name (String.uppercase_ascii name);
       Array.iter (fun a ->
           let b = tbal t a in
           if not (is_zero b) then pr "tok.%s.bal %s %s\n" name (name_of a) (sn b)) addr_tbl;
+      (* AllAccounts: every address with a stored balance entry (also 0), in key order *)
+      let accts = sort_by cmp (fun a -> a) (List.map fst t.tk_bal) in
+      List.iteri (fun i a -> pr "tok.%s.accounts %d %s\n" name (page_of i) (name_of a)) accts;
+      pr "tok.%s.accounts.def%s\n" name
+        (String.concat "" (List.map (fun a -> " " ^ name_of a) (take default_limit accts)));
       Array.iter (fun o ->
           Array.iter (fun s ->
               match get eqbNN t.tk_allow (o, s) with
@@ -284,7 +324,32 @@ let dump_token name (t : token option) =
               | Some al ->
                   if is_zero al.al_amt && al.al_exp = ExpNever then ()
                   else pr "tok.%s.allow %s %s %s %s\n" name (name_of o) (name_of s) (sn al.al_amt)
-                      (exp_str al.al_exp)) addr_tbl) addr_tbl
+                      (exp_str al.al_exp)) addr_tbl) addr_tbl;
+      (* AllAllowances per owner: every stored entry (also amount 0 / never), spenders in key order *)
+      Array.iter (fun o ->
+          let l = List.filter (fun ((o', _), _) -> o' = o) t.tk_allow in
+          let l = sort_by cmp (fun ((_, s), _) -> s) l in
+          List.iteri (fun i ((_, s), al) ->
+              pr "tok.%s.allallow %s %d %s %s %s\n" name (name_of o) (page_of i) (name_of s)
+                (sn al.al_amt) (exp_str al.al_exp)) l;
+          if l <> [] then
+            pr "tok.%s.allallow.def %s%s\n" name (name_of o)
+              (String.concat "" (List.map (fun ((_, s), _) -> " " ^ name_of s) (take default_limit l))))
+        addr_tbl;
+      if base then begin
+        (* AllSpenderAllowances (cw20-base keeps a reverse map; the model has the one map) *)
+        Array.iter (fun s ->
+            let l = List.filter (fun ((_, s'), _) -> s' = s) t.tk_allow in
+            let l = sort_by cmp (fun ((o, _), _) -> o) l in
+            List.iteri (fun i ((o, _), al) ->
+                pr "tok.%s.spallow %s %d %s %s %s\n" name (name_of s) (page_of i) (name_of o)
+                  (sn al.al_amt) (exp_str al.al_exp)) l)
+          addr_tbl;
+        (* marketing data is fixed by inst_stsei (MK = 2 is the only accepted form): project,
+           description, logo None, marketing = owner; no logo is ever uploaded *)
+        pr "tok.%s.marketing - - - owner\n" name;
+        pr "tok.%s.logo -\n" name
+      end
 
 let dump (w : world) =
   let e = w.w_env in
@@ -296,20 +361,51 @@ let dump (w : world) =
        pr "hub.cfg %s %s %s %s %s %s %s %s\n" (name_of c.hc_creator) (name_of c.hc_updater)
          (name_opt c.hc_disp) (name_opt c.hc_reg) (name_opt c.hc_bsei) (name_opt c.hc_stsei)
          (name_opt c.hc_airdrop) (name_opt c.hc_rewards);
+       (* Config query: no rewards contract, `token_contract` = the bSei token again *)
+       pr "hub.qcfg %s %s %s %s %s %s %s %s\n" (name_of c.hc_creator) (name_of c.hc_updater)
+         (name_opt c.hc_disp) (name_opt c.hc_reg) (name_opt c.hc_bsei) (name_opt c.hc_stsei)
+         (name_opt c.hc_airdrop) (name_opt c.hc_bsei);
        pr "hub.newowner %s\n" (name_of h.h_newowner);
+       pr "hub.qnewowner %s\n" (name_of h.h_newowner);
        let p = h.h_params in
-       pr "hub.params %s %s %s %s %s %s %s\n" (sn p.hp_epoch) (dname p.hp_underlying)
-         (sn p.hp_unbonding) (sn p.hp_pegfee) (sn p.hp_thr) (dname p.hp_rdenom)
-         (match p.hp_paused with None -> "-" | Some b -> b01 b);
+       let params_str =
+         Printf.sprintf "%s %s %s %s %s %s %s" (sn p.hp_epoch) (dname p.hp_underlying)
+           (sn p.hp_unbonding) (sn p.hp_pegfee) (sn p.hp_thr) (dname p.hp_rdenom)
+           (match p.hp_paused with None -> "-" | Some b -> b01 b) in
+       pr "hub.params %s\n" params_str;
+       pr "hub.qparams %s\n" params_str;
        pr "hub.stored %s\n" (state_str h.h_state);
+       (* hub.qdep: the deprecated alias fields exchange_rate / total_bond_amount of the State
+          response and requested_with_fee of the CurrentBatch response *)
        (match hub_query_state w a_hub with
-        | None -> pr "hub.state err\n"
-        | Some s -> pr "hub.state %s\n" (state_str s));
+        | None -> pr "hub.state err\n"; pr "hub.qdep err err %s\n" (sn h.h_batch.cb_reqb)
+        | Some s ->
+            pr "hub.state %s\n" (state_str s);
+            pr "hub.qdep %s %s %s\n" (sn s.hs_ber) (sn s.hs_bb) (sn h.h_batch.cb_reqb));
        pr "hub.batch %s %s %s\n" (sn h.h_batch.cb_id) (sn h.h_batch.cb_reqb) (sn h.h_batch.cb_reqst);
        List.iter (fun (i, he) ->
            pr "hub.hist %s %s %s %s %s %s %s %s %s\n" (sn i) (sn he.he_time) (sn he.he_bamt)
              (sn he.he_bapplied) (sn he.he_bwithdraw) (sn he.he_samt) (sn he.he_sapplied)
              (sn he.he_swithdraw) (b01 he.he_released)) h.h_hist;
+       (* hub.qhist: the model's AllHistory query, paged like the harness pages it (first four
+          pages, limits 2,3,2,3, cursor = last id of the previous page), with the default and with
+          the maximal limit; the alias fields are the bSei fields *)
+       let rec pages k start =
+         if k < 4 then begin
+           let lim = if k mod 2 = 0 then 2 else 3 in
+           let l = hub_query_history h start (Some (n_of_int lim)) in
+           List.iter (fun (i, he) ->
+               pr "hub.qhist %d %s %s %s %s\n" k (sn i) (sn he.he_bamt) (sn he.he_bapplied)
+                 (sn he.he_bwithdraw)) l;
+           if List.length l >= lim then
+             pages (k + 1) (Some (fst (List.nth l (List.length l - 1))))
+         end in
+       pages 0 None;
+       pr "hub.qhist.def%s\n"
+         (String.concat "" (List.map (fun (i, _) -> " " ^ sn i) (hub_query_history h None None)));
+       (let l = hub_query_history h None (Some (n_of_int 1000)) in
+        pr "hub.qhist.max %d %s\n" (List.length l)
+          (match List.rev l with [] -> "-" | (i, _) :: _ -> sn i));
        Array.iter (fun a ->
            let ws = user_waits h a in
            let ws = List.map (fun (b, x) -> (z_of_n b, x)) ws in
@@ -321,21 +417,32 @@ let dump (w : world) =
            | None -> pr "hub.wd %s err\n" (name_of a)
            | Some x -> if not (is_zero x) then pr "hub.wd %s %s\n" (name_of a) (sn x)) addr_tbl;
        pr "hub.oldwait %d\n" (List.length h.h_oldwait));
-  dump_token "bsei" w.w_bsei;
-  dump_token "stsei" w.w_stsei;
+  dump_token "bsei" false w.w_bsei;
+  dump_token "stsei" true w.w_stsei;
   (match w.w_reward with
    | None -> pr "rw.none\n"
    | Some r ->
        pr "rw.cfg %s %s %s %s %d%s\n" (name_of r.rw_owner) (name_of r.rw_hub) (dname r.rw_denom)
          (name_of r.rw_swap) (List.length r.rw_denoms)
          (String.concat "" (List.map (fun d -> " " ^ dname d) r.rw_denoms));
+       pr "rw.qcfg %s %s %s %s\n" (name_of r.rw_owner) (name_of r.rw_hub) (dname r.rw_denom)
+         (name_of r.rw_swap);
        pr "rw.newowner %s\n" (name_of r.rw_newowner);
+       pr "rw.qnewowner %s\n" (name_of r.rw_newowner);
        pr "rw.state %s %s %s\n" (sn r.rw_gi) (sn r.rw_total) (sn r.rw_prev);
+       pr "rw.qstate %s %s %s\n" (sn r.rw_gi) (sn r.rw_total) (sn r.rw_prev);
        Array.iter (fun a ->
            let h = holder_of r a in
            if not (is_zero h.ho_bal && is_zero h.ho_idx && is_zero h.ho_pend) then
              pr "rw.holder %s %s %s %s\n" (name_of a) (sn h.ho_bal) (sn h.ho_idx) (sn h.ho_pend))
          addr_tbl;
+       (* Holders: every stored holder entry (also all-zero ones), in canonical-address order *)
+       let hs = sort_by cmp_canon fst r.rw_holders in
+       List.iteri (fun i (a, h) ->
+           pr "rw.qholders %d %s %s %s %s\n" (page_of i) (name_of a) (sn h.ho_bal) (sn h.ho_idx)
+             (sn h.ho_pend)) hs;
+       pr "rw.qholders.def%s\n"
+         (String.concat "" (List.map (fun (a, _) -> " " ^ name_of a) (take default_limit hs)));
        Array.iter (fun a ->
            match query_accrued r a with
            | None -> ()
@@ -343,16 +450,22 @@ let dump (w : world) =
   (match w.w_disp with
    | None -> pr "dp.none\n"
    | Some d ->
-       pr "dp.cfg %s %s %s %s %s %s %s %s %s %d%s\n" (name_of d.dp_owner) (name_of d.dp_hub)
-         (name_of d.dp_reward) (dname d.dp_std) (dname d.dp_bd) (name_of d.dp_keeper) (sn d.dp_rate)
-         (name_of d.dp_swap) (name_of d.dp_oracle) (List.length d.dp_denoms)
-         (String.concat "" (List.map (fun x -> " " ^ dname x) d.dp_denoms));
-       pr "dp.newowner %s\n" (name_of d.dp_newowner));
+       let cfg_str =
+         Printf.sprintf "%s %s %s %s %s %s %s %s %s %d%s" (name_of d.dp_owner) (name_of d.dp_hub)
+           (name_of d.dp_reward) (dname d.dp_std) (dname d.dp_bd) (name_of d.dp_keeper) (sn d.dp_rate)
+           (name_of d.dp_swap) (name_of d.dp_oracle) (List.length d.dp_denoms)
+           (String.concat "" (List.map (fun x -> " " ^ dname x) d.dp_denoms)) in
+       pr "dp.cfg %s\n" cfg_str;
+       pr "dp.qcfg %s\n" cfg_str;
+       pr "dp.newowner %s\n" (name_of d.dp_newowner);
+       pr "dp.qnewowner %s\n" (name_of d.dp_newowner));
   (match w.w_reg with
    | None -> pr "rg.none\n"
    | Some g ->
        pr "rg.cfg %s %s\n" (name_of g.rg_owner) (name_of g.rg_hub);
+       pr "rg.qcfg %s %s\n" (name_of g.rg_owner) (name_of g.rg_hub);
        pr "rg.newowner %s\n" (name_of g.rg_newowner);
+       pr "rg.qnewowner %s\n" (name_of g.rg_newowner);
        (match reg_validators_for_delegation w with
         | None -> pr "rg.vals err\n"
         | Some l ->
